@@ -197,6 +197,17 @@ def corpus(v, level):
         z.value = 'ZZ1|1|x^y~z'
         return m.to_er7(), report(m)
     add('Message:nested', nested)
+
+    def traversal():
+        # delimiter-bearing text assigned through elements that do not exist yet: they are reached from a message that was
+        # given its characters, so this is no parentless assignment
+        m = core.Message('ADT_A01', version=v, validation_level=level, encoding_chars=dict(ec))
+        m.msh.msh_7 = '20200101'
+        m.pid.pid_5 = 'A^B&C~D'
+        m.pv1.pv1_3.value = 'W^1&2'
+        m.zz1.zz1_2 = 'a^b'
+        return m.to_er7(), report(m)
+    add('Message:traversal-assignment', traversal)
     add('Group', lambda: (lambda g: (g.add_segment('PID'), g.to_er7(ec))[-1])(
         core.Group('ADT_A01_INSURANCE' if 'ADT_A01_INSURANCE' in tables.lib(v).GROUPS else None, version=v,
                    validation_level=level)))
